@@ -206,3 +206,127 @@ Proof.
   pose proof (enough_top _ _ C Ha) as He. rewrite (pre_unique_subl _ C _ _ _ He Hp).
   split; [apply subl_nodup; auto|]. intros x. apply subl_reach; auto.
 Qed.
+
+(* ------------------------------------------------------------------ ElementsIterator *)
+Lemma content_split l :
+  elems l = [] \/ exists ds c l2, l = ds ++ CElem c :: l2 /\ elems ds = [] /\ elems l = c :: elems l2.
+Proof.
+  induction l as [|[c|d] l IH].
+  - left. reflexivity.
+  - right. exists [], c, l. repeat split; reflexivity.
+  - destruct IH as [IH|(ds & c & l2 & -> & Hds & He)].
+    + left. rewrite elems_cons_data. auto.
+    + right. exists (CData d :: ds), c, l2. repeat split; auto.
+Qed.
+
+Lemma nth_opt_app_mid {A} (pre : list A) x rest : nth_opt (pre ++ x :: rest) (List.length pre) = Some x.
+Proof. induction pre; cbn; auto. Qed.
+
+(* skipping character content *)
+Lemma ei_skip ds : forall pre rest last f, elems ds = [] ->
+  ei_loop (List.length ds + f) (pre ++ ds ++ rest) (N.of_nat (List.length pre)) last =
+  ei_loop f (pre ++ ds ++ rest) (N.of_nat (List.length pre + List.length ds)) last.
+Proof.
+  induction ds as [|[c|d] ds IH]; intros pre rest last f He.
+  - cbn. rewrite Nat.add_0_r. reflexivity.
+  - discriminate.
+  - rewrite elems_cons_data in He. cbn [List.length Nat.add ei_loop].
+    assert (Hlt : N.of_nat (List.length pre) <? N.of_nat (List.length (pre ++ (CData d :: ds) ++ rest)) = true).
+    { apply N.ltb_lt. rewrite !app_length. cbn. lia. }
+    rewrite Hlt. rewrite Nat2N.id. cbn [app]. rewrite nth_opt_app_mid.
+    specialize (IH (pre ++ [CData d]) rest last f He).
+    rewrite <- !app_assoc in IH. cbn [app] in IH. rewrite app_length in IH. cbn [List.length] in IH.
+    replace (N.of_nat (List.length pre) + 1) with (N.of_nat (List.length pre + 1)) by lia.
+    rewrite IH. f_equal. lia.
+Qed.
+
+Lemma ei_at_new pre c rest last f :
+  last <> Some c ->
+  ei_loop (S f) (pre ++ CElem c :: rest) (N.of_nat (List.length pre)) last =
+  Val (Some c, N.of_nat (List.length pre), Some c).
+Proof.
+  intros Hl. cbn [ei_loop].
+  assert (Hlt : N.of_nat (List.length pre) <? N.of_nat (List.length (pre ++ CElem c :: rest)) = true).
+  { apply N.ltb_lt. rewrite app_length. cbn. lia. }
+  rewrite Hlt, Nat2N.id, nth_opt_app_mid. destruct last as [p|]; auto.
+  destruct (p =? c) eqn:E; auto. apply N.eqb_eq in E. congruence.
+Qed.
+
+Lemma ei_at_same pre p rest f :
+  ei_loop (S f) (pre ++ CElem p :: rest) (N.of_nat (List.length pre)) (Some p) =
+  ei_loop f (pre ++ CElem p :: rest) (N.of_nat (List.length pre) + 1) (Some p).
+Proof.
+  cbn [ei_loop].
+  assert (Hlt : N.of_nat (List.length pre) <? N.of_nat (List.length (pre ++ CElem p :: rest)) = true).
+  { apply N.ltb_lt. rewrite app_length. cbn. lia. }
+  rewrite Hlt, Nat2N.id, nth_opt_app_mid, N.eqb_refl. reflexivity.
+Qed.
+
+Lemma ei_at_end l last f : (0 < f)%nat -> ei_loop f l (N.of_nat (List.length l)) last = Val (None, USIZE_MAX, last).
+Proof. intros Hf. destruct f; [lia|]. cbn [ei_loop]. rewrite N.ltb_irrefl. reflexivity. Qed.
+
+Lemma ei_loop_alldata ds pre last f : elems ds = [] -> (List.length ds < f)%nat ->
+  ei_loop f (pre ++ ds) (N.of_nat (List.length pre)) last = Val (None, USIZE_MAX, last).
+Proof.
+  intros He Hf. replace f with (List.length ds + (f - List.length ds))%nat by lia.
+  pose proof (ei_skip ds pre [] last (f - List.length ds) He) as Hs. rewrite app_nil_r in Hs. rewrite Hs.
+  destruct (f - List.length ds)%nat as [|f'] eqn:Ef; [lia|].
+  replace (List.length pre + List.length ds)%nat with (List.length (pre ++ ds)) by (rewrite app_length; auto).
+  apply ei_at_end. lia.
+Qed.
+
+Lemma ei_loop_next ds c rest pre last f : elems ds = [] -> last <> Some c -> (List.length ds < f)%nat ->
+  ei_loop f (pre ++ ds ++ CElem c :: rest) (N.of_nat (List.length pre)) last =
+  Val (Some c, N.of_nat (List.length pre + List.length ds), Some c).
+Proof.
+  intros He Hl Hf. replace f with (List.length ds + (f - List.length ds))%nat by lia.
+  rewrite (ei_skip ds pre (CElem c :: rest) last (f - List.length ds) He).
+  destruct (f - List.length ds)%nat as [|f'] eqn:Ef; [lia|].
+  rewrite app_assoc. replace (List.length pre + List.length ds)%nat with (List.length (pre ++ ds)) by (rewrite app_length; auto).
+  apply ei_at_new. auto.
+Qed.
+
+Lemma ei_drain_from w e n : w_nodes w e = Some n ->
+  forall k suf pre c, (List.length suf <= k)%nat -> n_content n = pre ++ CElem c :: suf -> NoDup (c :: elems suf) ->
+  forall f, (List.length (elems suf) + 1 <= f)%nat ->
+  ei_drain f (mkEI e (N.of_nat (List.length pre)) (Some c)) w = Val (elems suf).
+Proof.
+  intros Hn. induction k as [|k IH]; intros suf pre c Hk Hc Hnd f Hf.
+  - destruct suf; [|cbn in Hk; lia]. destruct f as [|f]; [lia|]. cbn [ei_drain]. unfold ei_next. cbn [ei_elem ei_index ei_last].
+    rewrite Hn, Hc. rewrite ei_at_same.
+    replace (N.of_nat (List.length pre) + 1) with (N.of_nat (List.length (pre ++ [CElem c]))) by (rewrite app_length; cbn; lia).
+    rewrite ei_at_end by (rewrite app_length; cbn; lia). reflexivity.
+  - destruct f as [|f]; [lia|]. cbn [ei_drain]. unfold ei_next. cbn [ei_elem ei_index ei_last]. rewrite Hn, Hc. rewrite ei_at_same.
+    replace (N.of_nat (List.length pre) + 1) with (N.of_nat (List.length (pre ++ [CElem c]))) by (rewrite app_length; cbn; lia).
+    replace (pre ++ CElem c :: suf) with ((pre ++ [CElem c]) ++ suf) by (rewrite <- app_assoc; reflexivity).
+    destruct (content_split suf) as [He|(ds & c2 & suf2 & -> & Hds & He)].
+    + rewrite ei_loop_alldata; auto; [|rewrite !app_length; cbn; lia]. cbn [bind]. rewrite He. reflexivity.
+    + rewrite ei_loop_next; auto.
+      2:{ intros [= ->]. rewrite He in Hnd. inversion Hnd; subst. apply H1. left; auto. }
+      2:{ rewrite !app_length. cbn. lia. }
+      cbn [bind]. rewrite He in *. inversion Hnd; subst.
+      replace (List.length (pre ++ [CElem c]) + List.length ds)%nat with (List.length (pre ++ CElem c :: ds))
+        by (rewrite !app_length; cbn; lia).
+      rewrite (IH suf2 (pre ++ CElem c :: ds) c2); auto.
+      * rewrite app_length in Hk. cbn in Hk. lia.
+      * rewrite Hc. rewrite <- !app_assoc. reflexivity.
+      * cbn [List.length] in Hf. lia.
+Qed.
+
+(* ---------- the theorem for ElementsIterator ---------- *)
+Theorem ei_iter_spec w e n : Core w -> w_nodes w e = Some n ->
+  forall f, (List.length (kids n) + 1 <= f)%nat -> ei_drain f (ei_new e) w = Val (kids n).
+Proof.
+  intros C Hn f Hf. pose proof (c_nodup _ C _ _ Hn) as Hnd. unfold kids in *.
+  destruct f as [|f]; [lia|]. cbn [ei_drain]. unfold ei_next, ei_new. cbn [ei_elem ei_index ei_last]. rewrite Hn.
+  destruct (content_split (n_content n)) as [He|(ds & c & suf & Hc & Hds & He)].
+  - change (N.of_nat 0) with (N.of_nat (List.length (@nil citem))).
+    replace (n_content n) with ([] ++ n_content n) at 2 by reflexivity.
+    change 0 with (N.of_nat (List.length (@nil citem))).
+    rewrite ei_loop_alldata; auto. cbn [bind]. rewrite He. reflexivity.
+  - rewrite Hc at 2. change 0 with (N.of_nat (List.length (@nil citem))).
+    replace (ds ++ CElem c :: suf) with ([] ++ ds ++ CElem c :: suf) by reflexivity.
+    rewrite ei_loop_next; auto; [|congruence | rewrite Hc, app_length; cbn; lia].
+    cbn [bind List.length Nat.add]. rewrite He in *.
+    rewrite (ei_drain_from w e n Hn (List.length suf) suf ds c); auto. cbn [List.length] in Hf. lia.
+Qed.
